@@ -1415,6 +1415,8 @@ class Assembler:
             cl = [x for x in c.clauses if x.kind == kind]
             if not cl or bare:
                 continue
+            if imported and kind == 'decreases':
+                continue   # an external_body function has no body to terminate (and rustc would see the ghost expression)
             self.emit('    %s' % kind)
             for x in cl:
                 self.emit('        %s,' % x.text,
@@ -1463,13 +1465,21 @@ class Assembler:
                 else:
                     cn.add(nm)
         call_names = sorted(cn)
+        # control-flow skeleton of the source body: the contract's proof hints were written for this shape
+        skel = []
+        for k in range(len(bsig)):
+            tk_ = btoks[bsig[k]]
+            if (tk_[0] == 'ident' and tk_[1] in ('if', 'else', 'match', 'while', 'for', 'loop', 'return', 'break', 'continue', 'let')) or \
+               (tk_[0] == 'punct' and tk_[1] in ('=>', '?', '&&', '||')):
+                skel.append(tk_[1])
+        skeleton = ' '.join(skel)
         call_counts = {}
         for k in range(len(bsig) - 1):
             if btoks[bsig[k]][0] == 'ident' and btoks[bsig[k + 1]][1] == '(':
                 call_counts[btoks[bsig[k]][1]] = call_counts.get(btoks[bsig[k]][1], 0) + 1
         self.functions.append({'key': key, 'name': c.name, 'ctx': c.ctx, 'src': '%s:%d' % (c.src, fn_line),
                                'loops': n_loops, 'loops_with_invariant': n_annotated,
-                               'closures': n_clos, 'closures_annotated': n_clos_ann, 'calls': call_names, 'call_counts': call_counts,
+                               'closures': n_clos, 'closures_annotated': n_clos_ann, 'calls': call_names, 'call_counts': call_counts, 'skeleton': skeleton,
                                'clauses': [{'id': x.cid, 'tags': x.tags, 'kind': x.kind} for x in c.clauses] +
                                           [{'id': x.cid, 'tags': x.tags, 'kind': 'loop-' + x.kind} for cls in c.loops.values() for x in cls],
                                'safety_tags': c.safety_tags})
